@@ -216,7 +216,53 @@ Definition decl_wellformed : bool :=
 Definition names_fit (c : call) : bool :=
   s_varkw sg || (all_in_sig (map (@p_name value) (d_params dc)) && all_in_sig (map fst (c_kwargs c))).
 
+(* ---- functions with *args, in their principal use: return_as=ARGS, a purely positional call, the Parameters of the
+   named parameters declared first and in signature order, the remaining Parameters (their names are no parameters of
+   the function) standing for the positions of *args.
+   The i-th surplus positional belongs to the i-th of those Parameters (declaration order; repository test
+   test_return_multiple_args); the body receives the chain outputs in *args, followed by the defaults of the
+   Parameters that got no value; a positional beyond the last Parameter has no Parameter: strict -> TooManyArguments,
+   otherwise it is passed on unchanged.                                                                       *)
+Fixpoint names_eqb (a b : list name) : bool :=
+  match a, b with
+  | [], [] => true
+  | x :: a', y :: b' => Nat.eqb x y && names_eqb a' b'
+  | _, _ => false
+  end.
+
+Definition star_params : list param := filter (fun p => negb (in_sig (p_name p))) (d_params dc).
+
+Definition spec_star_domain (c : call) : bool :=
+  s_varpos sg && match d_mode dc with ARGS => true | _ => false end && negb (d_ignore_input dc)
+  && match c_kwargs c with [] => true | _ => false end
+  && forallb (fun sp => negb (sp_kwonly sp)) (s_params sg) && negb (in_sig self_name)
+  && decl_wellformed
+  && names_eqb (map (@p_name value) (d_params dc)) (positional_names ++ map (@p_name value) star_params).
+
+Inductive demanded_star :=
+| DSRaise (allowed : list (exn * option name))
+| DSPythonRejects
+| DSBody (b : dict) (star : list value).
+
+Definition spec_star_outcome (c : call) : demanded_star :=
+  let extras := skipn (List.length positional_names) (c_args c) in
+  let named := map (fun p => (p_name p, spec_declared c p)) (filter (fun p => in_sig (p_name p)) (d_params dc)) in
+  let paired := map (fun ap => (p_name (snd ap), of_verdict (p_name (snd ap)) (spec_param (snd ap) (fst ap)))) (combine extras star_params) in
+  let rest := map (fun p => (p_name p, spec_declared c p)) (skipn (List.length extras) star_params) in
+  let surplus := skipn (List.length star_params) extras in
+  let surplus_raises := match surplus with _ :: _ => if d_strict dc then [(TooManyArgumentsC, @None name)] else [] | [] => [] end in
+  let raises := flat_map (fun ne => match snd ne with ERaise e pn => [(e, pn)] | _ => [] end) (named ++ paired ++ rest) ++ surplus_raises in
+  match raises with
+  | _ :: _ => DSRaise raises
+  | [] =>
+      match demanded_binding named (s_params sg) with
+      | None => DSPythonRejects
+      | Some b => DSBody b (flat_map (fun ne => match snd ne with EValue v => [v] | _ => [] end) (paired ++ rest) ++ surplus)
+      end
+  end.
+
 End Spec.
+
 
 Arguments VPass {value} _.
 Arguments VReject {value}.
@@ -227,3 +273,6 @@ Arguments ERaise {value} _ _.
 Arguments DRaise {value} _.
 Arguments DPythonRejects {value}.
 Arguments DBody {value} _.
+Arguments DSRaise {value} _.
+Arguments DSPythonRejects {value}.
+Arguments DSBody {value} _ _.
